@@ -331,5 +331,6 @@ MUTANTS = [
     M("cache-store-below-padding", IT, "RenderIterator._iterate",
       "                        self._padding.pad(frame.render_output, frame.render_size),\n                    )\n",
       "                        self._padding.pad(frame.render_output, frame.render_size),\n                    )\n                    if cache:\n                        cache[frame_no] = (frame, *cache[frame_no][1:])\n", {"R7"}),
+    M("store-before-validating-ctor", IT, "RenderIterator.set_render_args", "        render_cls = type(self._renderable)\n", "        render_cls = type(self._renderable)\n        self._render_args = render_args\n", {"R2"}),
     M("twin-local-alias", IT, "RenderIterator.set_render_size", "        self._renderable_data.size = render_size\n", "        data = self._renderable_data\n        self._renderable_data.size = render_size\n", twin=True),
 ]
